@@ -39,9 +39,11 @@ MANIFEST = dict(
     note=("Documented-semantics clause is covered only for commands with a TLA+ operator; rex, regex, eval functions and bin "
           "without span are bound metamorphically (expected = real single-batch run, every TLC-enumerated chunking must "
           "reproduce it). Values are small integers/null; by-fields and aggregated fields are null-free (the statement is "
-          "silent on null groups); `top/rare limit=N`, multi-key sort and timechart/transaction are not modelled. Parallel "
-          "chains (SetupQueryParallelism) are exercised only end to end (GOMAXPROCS>1), not forced per schedule. "
-          "Pairs/triples are a VERIF_SEED-selected sample in the quick tier."),
+          "silent on null groups); `top/rare limit=N`, multi-key sort and timechart/transaction are not modelled. The operational "
+          "model has one upstream chain: parallel chains (SetupQueryParallelism, merger, fetchFromAnyStream) are run in-package "
+          "with two synthetic streams for every TLC-enumerated assignment of rows to streams and end to end with GOMAXPROCS 2/4, "
+          "against the same oracle (TLC checks SplitInvariant: the oracle is independent of the split); the merge schedule "
+          "itself is not forced. Pairs/triples are a VERIF_SEED-selected sample in the quick tier."),
     design_ref="DESIGN.md 4/C06",
 )
 
